@@ -42,8 +42,30 @@ def plan(tier, seed):
     return [{'idx': i} for i in range(n)]
 
 
+class R2(float):
+    """A receiver value that is reported "rounded to two decimals": equal to any number with at most two decimals that
+    lies within half a unit of the last place of it.  (A value sitting on a rounding tie - 1.815 - is reported as 1.81
+    or 1.82 depending on the rounding routine; the statement does not choose between them.)"""
+
+    def __eq__(self, other):
+        if isinstance(other, R2):
+            return float(self) == float(other)
+        if isinstance(other, (int, float)) and not isinstance(other, bool):
+            o = float(other)
+            return abs(round(o * 100) - o * 100) < 1e-6 and abs(float(self) - o) <= 0.005 + 1e-9
+        return False
+
+    def __ne__(self, other):
+        return not self.__eq__(other)
+
+    __hash__ = float.__hash__
+
+    def __repr__(self):
+        return f'~{float(self):.4f}'
+
+
 def r2(x):
-    return round(float(x), 2)
+    return R2(float(x))
 
 
 def build(rng):
@@ -57,8 +79,18 @@ def build(rng):
                                         'tx_osnr': 40, 'min_spacing': 37.5e9, 'cost': 1},
                                        {'format': 'h2', 'baud_rate': 64e9, 'OSNR': 46, 'bit_rate': 200e9, 'roll_off': 0.15,
                                         'tx_osnr': 40, 'min_spacing': 75e9, 'cost': 1}]})
+    per_channel_penalties = rng.random() < 0.4
+    if per_channel_penalties:
+        # fibres whose dispersion differs per channel (slope / per-frequency tables) and steep CD penalty tables: the
+        # penalty then differs from channel to channel and the channel with the worst margin is often not the one with
+        # the lowest GSNR - the response must still report the lowest GSNR as such
+        for t in ej['Transceiver']:
+            for m in t['mode']:
+                if rng.random() < 0.8:
+                    m['penalties'] = [{'chromatic_dispersion': 0, 'penalty_value': 0},
+                                      {'chromatic_dispersion': 6e4, 'penalty_value': G.pick(rng, [30, 60, 90])}]
     tj, _ = G.gen_topology(rng, n_sites=rng.randint(3, 4), max_spans=3, whole_km=True, max_km=120,
-                           user_amps=rng.random() < 0.5)
+                           user_amps=rng.random() < 0.5, dispersion_variants=per_channel_penalties)
     equipment = G.make_equipment(ej)
     network = G.make_network(tj, equipment)
     SimParams.set_params({})
@@ -165,8 +197,8 @@ def expected_metrics(rx, rq):
     def pen(k):
         if k not in rx.penalties:
             return 'not evaluated'
-        v = round(float(np.mean(rx.penalties[k])), 2)
-        return 'Infinity' if math.isinf(v) else v
+        v = float(np.mean(rx.penalties[k]))
+        return 'Infinity' if math.isinf(v) else r2(v)
     return {'SNR-bandwidth': r2(np.mean(rx.snr)), 'SNR-0.1nm': r2(np.mean(rx.snr_01nm)),
             'OSNR-bandwidth': r2(np.mean(rx.osnr_ase)), 'OSNR-0.1nm': r2(np.mean(rx.osnr_ase_01nm)),
             'lowest_SNR-0.1nm': r2(np.min(rx.snr_01nm)), 'biggest_SNR-0.1nm': r2(np.max(rx.snr_01nm)),
@@ -203,7 +235,7 @@ def check_against_events(ctx, doc, rqs, events):
                 # noise-dominated line far outside the regime of the models: the figures are not numbers
                 ctx.skip('receiver-figures-not-a-number')
                 continue
-            diff = {k: (got.get(k), ev[k]) for k in RECEIVER_KEYS if got.get(k) != ev[k]}
+            diff = {k: (got.get(k), ev[k]) for k in RECEIVER_KEYS if ev[k] != got.get(k)}
             if diff:
                 ctx.violation('metrics-not-own-propagation', f'response {rq.request_id}: {key} ({a} -> {z}) differs '
                               f'from the figures its own propagation ended with (reported, observed): {diff}')
@@ -262,8 +294,8 @@ def check_entry(ctx, entry, rq, path, rpath, group):
     got = {e['metric-type']: e['accumulative-value'] for e in props['path-metric']}
     if any(isinstance(v, float) and math.isnan(v) for v in exp.values()):
         ctx.skip('receiver-figures-not-a-number')
-    elif got != exp:
-        diff = {k: (got.get(k), exp[k]) for k in exp if got.get(k) != exp[k]}
+    elif exp != got:         # (expected values on the left: they carry the "rounded to two decimals" comparison)
+        diff = {k: (got.get(k), exp[k]) for k in exp if exp[k] != got.get(k)}
         ctx.violation('metrics', f'{where}: reported metrics differ from the forward receiver: {diff}')
     if rq.bidir:
         ctx.count('bidirectional')
@@ -275,12 +307,12 @@ def check_entry(ctx, entry, rq, path, rpath, group):
             gotr = {e['metric-type']: e['accumulative-value'] for e in props.get('z-a-path-metric', [])}
             if any(isinstance(v, float) and math.isnan(v) for v in expr.values()):
                 ctx.skip('receiver-figures-not-a-number')
-            elif gotr != expr:
-                diff = {k: (gotr.get(k), expr[k]) for k in expr if gotr.get(k) != expr[k]}
+            elif expr != gotr:
+                diff = {k: (gotr.get(k), expr[k]) for k in expr if expr[k] != gotr.get(k)}
                 fwd = exp
                 mech = None
                 ctx.violation('reverse-metrics', f'{where}: reverse-direction metrics differ from the reverse receiver: '
-                              f'{diff}' + (' (they equal the forward ones)' if gotr == fwd else ''))
+                              f'{diff}' + (' (they equal the forward ones)' if fwd == gotr else ''))
     elif 'z-a-path-metric' in props:
         ctx.violation('reverse-metrics', f'{where}: unidirectional request carries reverse metrics')
     if abs(rq.path_bandwidth - group['bw']) > 1e-3:
@@ -318,14 +350,18 @@ def check_csv(ctx, doc, equipment, rqs, paths, rpaths, margin):
                'path': ' | '.join(n.uid for n in path)}
         for k, v in exp.items():
             got = row[k]
-            ok = (abs(float(got) - v) < 1e-9) if isinstance(v, (int, float)) and got != '' else (got == str(v))
+            if isinstance(v, R2):
+                ok = got != '' and v == float(got)
+            else:
+                ok = (abs(float(got) - v) < 1e-9) if isinstance(v, (int, float)) and got != '' else (got == str(v))
             if not ok:
                 ctx.violation('csv-field', f'{where}: column "{k}" = {got!r}, expected {v!r}')
                 break
         if reason is None:
-            exp_pass = r2(np.min(rx.snr_01nm)) >= mode['OSNR'] + margin
+            # (the stated worst-channel value was compared with the receiver just above)
+            exp_pass = float(row['SNR-0.1nm (min)']) >= mode['OSNR'] + margin
             if row['Pass?'] != str(exp_pass):
-                ctx.violation('csv-pass-flag', f'{where}: Pass? = {row["Pass?"]}, worst SNR {r2(np.min(rx.snr_01nm))} vs '
+                ctx.violation('csv-pass-flag', f'{where}: Pass? = {row["Pass?"]}, worst SNR {row["SNR-0.1nm (min)"]} vs '
                               f'threshold {mode["OSNR"] + margin}')
             exp_spec = f'{list(rq.N)}, {list(rq.M)}'
             if row['spectrum (N,M)'] != exp_spec:
@@ -339,7 +375,7 @@ def check_csv(ctx, doc, equipment, rqs, paths, rpaths, margin):
                 ctx.violation('csv-spectrum', f'{where}: blocked but spectrum column is {row["spectrum (N,M)"]!r}')
         if rq.bidir and rpath:
             rrx = rpath[-1]
-            if abs(float(row['reversed path SNR-0.1nm (min)']) - r2(np.min(rrx.snr_01nm))) > 1e-9:
+            if r2(np.min(rrx.snr_01nm)) != float(row['reversed path SNR-0.1nm (min)']):
                 ctx.violation('csv-reverse', f'{where}: reversed path SNR-0.1nm (min) = '
                               f'{row["reversed path SNR-0.1nm (min)"]}, reverse receiver has {r2(np.min(rrx.snr_01nm))}')
 
